@@ -3,6 +3,7 @@ import SccacheModel.Proofs.ArgsPolicy
 import SccacheModel.Props.C02
 import SccacheModel.Model.ServerL1
 import SccacheModel.Model.Spec
+import SccacheModel.Proofs.AtFile
 
 /-! # C01 — wrapped C/C++ compiles are observably identical to direct compiles
 
@@ -87,5 +88,28 @@ theorem lossy_concatenated_value_witness :
     (match tokenize (search1 gccArgs) false 3 false [[45, 68], [65, 255, 66]] with
      | [.ok (.withValue n _ val _)] => n == [45, 68] && val == [65, 255, 66]
      | _ => false) = true := by decide +kernel
+
+/-- `response_files_agree`: every gcc / clang command line goes through `ExpandIncludeFile` before it is parsed, hashed
+    and re-synthesised.  For **every** file system (missing files, directories, files that include themselves or each
+    other, any bytes) and every command line: if the expansion leaves no `@` argument behind — the only case in which the
+    request can be cached and the compiler is re-run with sccache's argument list — then libiberty's `expandargv`, i.e. the
+    compiler started directly on the original command line, arrives at exactly the same list.  (A command line that keeps
+    an `@` argument is `cannot_cache!("@")`: the compiler gets the original command line.)
+    Findings F-C01-f, F-C01-g, F-C01-h (all fixed) were three ways in which this failed on the pinned tree. -/
+theorem response_files_agree (fs : AtFileM.Fs) (args : List AtFileM.Bytes)
+    (h : ∀ x ∈ AtFileM.sccExpand fs AtFileM.maxAtFiles args, AtFileM.stripAt x = none) :
+    AtFileM.gccExpand fs AtFileM.maxAtFiles args = some (AtFileM.sccExpand fs AtFileM.maxAtFiles args) :=
+  AtFileM.expand_agrees fs _ args h
+
+/-- a command line without `@` arguments is not touched -/
+theorem no_response_file_no_change (fs : AtFileM.Fs) (args : List AtFileM.Bytes) (h : ∀ x ∈ args, AtFileM.stripAt x = none) :
+    AtFileM.sccExpand fs AtFileM.maxAtFiles args = args := AtFileM.sccExpand_no_at fs _ args h
+
+/-- the expansion is a total function: `sccExpand` is accepted by Lean with the measure (budget, arguments left) —
+    on the pinned tree a response file naming itself made the real iterator produce arguments for ever (F-C01-h).
+    Witness on the fixed semantics: with a budget of 3 the self-including file `l` = "-DL @l" is opened twice, then left alone. -/
+theorem self_including_file_is_left_alone :
+    AtFileM.sccExpand AtFileM.fsEx 3 [[64, 108]] = [[45, 68, 76], [45, 68, 76], [64, 108]] := by
+  simp [AtFileM.sccExpand, AtFileM.stripAt, AtFileM.fsEx, AtFileM.validUtf8, AtFileM.needsQuoting, AtFileM.splitWs, AtFileM.splitWsFuel, AtFileM.isSpace]
 
 end C01
